@@ -78,30 +78,7 @@ func hasResult(code int) bool {
 	return setMsg(refwire.ByCode(code).Zero, "x") != nil && code != 102 && code != 104
 }
 
-// equalMsg compares two messages treating nil and empty byte slices as equal.
-func equalMsg(a, b interface{}) bool {
-	return reflect.DeepEqual(norm(reflect.ValueOf(a)).Interface(), norm(reflect.ValueOf(b)).Interface())
-}
-
-func norm(v reflect.Value) reflect.Value {
-	p := reflect.New(v.Type()).Elem()
-	p.Set(v)
-	var walk func(x reflect.Value)
-	walk = func(x reflect.Value) {
-		switch x.Kind() {
-		case reflect.Struct:
-			for i := 0; i < x.NumField(); i++ {
-				walk(x.Field(i))
-			}
-		case reflect.Slice:
-			if x.Type().Elem().Kind() == reflect.Uint8 && x.Len() == 0 && x.CanSet() {
-				x.Set(reflect.Zero(x.Type()))
-			}
-		}
-	}
-	walk(p)
-	return p
-}
+func equalMsg(a, b interface{}) bool { return refwire.EqualMsg(a, b) }
 
 // fieldClasses summarises a message: per string/bytes field its length class, plus result code.
 func fieldClasses(v interface{}) (classes []string, boundary, nonASCII, failed bool) {
